@@ -5,6 +5,10 @@ import json, subprocess
 BASELINE = json.load(open('/root/.vp/BASELINE.json'))['cmd']
 
 CHECKS = {
+ "C15": dict(level="exploration", design="DESIGN.md §4 C15",
+   text="Every operand encoding (3 selectors x 8 kinds x every address from -65540 to 65540), every opcode value combined with every kind triple and boundary address triple, and function values at the boundaries of their fields are encoded and decoded on the real packages; sessions and programs whose constants, name references, jump distances, parameter and local counts cross 2^15 (thorough: 2^16) are run statement by statement through the real processInput path, where each statement must give its value or be refused cleanly.",
+   note="Sizes beyond 2^16+2 are not covered; a refusal is recognised by its shape (error line, segments unchanged), not by a fixed message.",
+   technique="exhaustive enumeration of the encoder input space + boundary-crossing session families on the real read-eval path"),
  "C07": dict(level="exploration", design="DESIGN.md §4 C07",
    text="Every expression tree of depth <= 2 over the full operator set, every statement form in every body position to nesting 2 (dangling-else shapes included) and, in the thorough tier, depth-3 trees over one operator per precedence level are written as text by the documented rules in four parenthesis/brace styles and every single-site layout deviation; the real parser must return exactly the tree each text was written from.",
    note="Trusts the harness printer as the statement of the documented grammar; deeper trees and multi-site layout combinations are not covered.",
